@@ -29,6 +29,9 @@ def handle (j : Json) : Json :=
     let handled := (jarr j "handled").map (fun l => (asArr l).map (fun s => match s with
                       | .str "FAILED" => St.failed | .str "DONE" => St.done | .str "CANCELED" => St.canceled | v => St.nf (asNat v)))
     jl ((workCb handled (jnat j "rest") (jbool j "raises")).map (fun l => jl (l.map stJson)))
+  else if op == "work_cb_marked" then
+    let marks := (jarr j "marks").map (fun b => match b with | .bool true => true | _ => false)
+    jl ((workCbMarked (.nf 13) marks 0 (jnatOpt j "raise_at")).map (fun l => jl (l.map stJson)))
   else Json.str "bad-op"
 
 end Driver.Pipeline
